@@ -124,7 +124,7 @@ reg("C17", ["c17_endpoints.c"], level="fault_enumeration",
     rule="'exact': every driver behaviour script of length <= 5 (quick) / <= 8 (thorough) over {1, 0, EINTR, EAGAIN, "
          "hard error} for octet-style and {1, 2, k=3, all asked, 0, EINTR, EAGAIN, hard error} for chunk-style "
          "drivers (after the script the driver moves everything asked), for N = 1..6, through source_get_chunk, "
-         "sink_put_chunk and both at-most variants; 'invalid': N = 0 and N > SSIZE_MAX; 'nothing': at-most transfers of zero octets and the aux functions with a "
+         "sink_put_chunk and both at-most variants; 'invalid': N = 0 and N > SSIZE_MAX; 'codes': every errno value 1..140 except EINTR/EAGAIN as a driver's hard error (first call and after one octet, exact and at-most calls, both styles); 'nothing': at-most transfers of zero octets and the aux functions with a "
          "full auxiliary buffer (nothing may move, nothing may be written); 'plumb': every pair of "
          "source and sink scripts up to length 3 (thorough 4) over {1, 2, all, hard error} x N = 1..6 x stream "
          "longer/shorter than N x 4 driver-style combinations x sink error EIO/ENOMEM, through sts_cbc, sts_n_cbc, "
@@ -149,7 +149,9 @@ reg("C17", ["c17_endpoints.c"], level="fault_enumeration",
 reg("C13", ["c13_lenp.c"],
     rule="'enc': 6 prefix kinds x payload lengths 1..300 (quick) / 1..1100 (thorough) x 8 encoder entry points x two "
          "buffer layouts (consumed/unread/extra/free regions with distinct content; chunk lists with empty and "
-         "inactive chunks) x 3 sink styles (chunk, octet, chunk accepting <= 3 octets per call); 'bounds': lengths "
+         "inactive chunks) x 3 sink styles (chunk, octet, chunk accepting <= 3 octets per call), and for lengths <= 300 a chunk- or "
+         "octet-style sink that has to be asked again once (0, -EAGAIN or -EINTR at one of its first three calls; a "
+         "reported failure is not judged then); 'bounds': lengths "
          "around 127/128, 255/256, 16383/16384, 65535/65536; 'huge': 2^32-2..2^32+1, SSIZE_MAX-20..SSIZE_MAX+1, "
          "UINT64_MAX into a counting sink; 'dec': 3 decoder entry points x destination capacity len-1/len/len+1 x "
          "octet/chunk sources with random fragmentation x 1..3 frames back to back (chunk sources also exposing a "
@@ -168,7 +170,7 @@ reg("C20", ["c20_sx.c"],
          "48879} (unranked from a counting recurrence; every 23rd tree from a seeded offset in quick, all in "
          "thorough), rendered with three whitespace policies and decimal / #x lower / #x upper / mixed number "
          "formats, with and without trailing material, parsed NUL-terminated, length-delimited (exact-size "
-         "poisoned block without terminator) and with sx_parse() from a start offset behind other text; integers with leading zeros in fields of 19..1000 digits; 'strings-N': every string of length N <= 5 (quick) / <= 7 (thorough) "
+         "poisoned block without terminator) and with sx_parse() from a start offset behind other text; integers with leading zeros in fields of 19..1000 digits; every character a symbol may start or continue with, alone and inside lists; 'strings-N': every string of length N <= 5 (quick) / <= 7 (thorough) "
          "over '( ) space newline a 1 0 # x F' judged by a reference reader (verdict, tree, position); 'random': "
          "parenthesis-heavy random strings up to 39 characters. Every case checks the allocation ledger (bytes "
          "allocated before the parse == after sx_destroy) and, on error, that no tree is returned. A signature is "
